@@ -19,6 +19,7 @@ import Spade.Query
 import Spade.Proofs.Orbit
 import Spade.Generated.Leaf
 import Spade.Examples
+import Spade.Proofs.CircIterSound
 namespace Spade
 
 theorem C14_check_iff (s : St) (n : Nat) (f b : List Nat) :
@@ -85,4 +86,68 @@ iterator yields its five hull edges -/
 example : exFive.LinksOK ∧ exFive.AnchorsOK ∧ exFive.OuterCycleOK ∧ 0 < exFive.nE ∧
     exFive.hullIter = [13, 11, 3, 1, 9] := by decide
 
+
+/-! ### Code level (T0): the `CircularIterator` state machine behind `convex_hull()` / `out_edges()` -/
+section CodeCircular
+open Spade.Generated
+
+/-- the hull model compared with the implementation after every step (`St.hullIter`, an `orbit` of
+    `next`) is what draining the translated `CircularIterator` from the front produces -/
+theorem C14_code_iterator_is_hullIter (s : St) :
+    s.hullIter = match s.fAdj.getD 0 none with
+      | none => []
+      | some e0 => CI.drain s.nxt (CI.new e0) s.nE := by
+  unfold St.hullIter
+  cases s.fAdj.getD 0 none with
+  | none => rfl
+  | some e0 => simp only [CI.new, CI_drain_orbit]
+
+/-- **Double-ended contract.** Over a cycle of `n` distinct elements on which `back` undoes `step`,
+    any interleaving of `next()` and `next_back()` calls hands out `cyc 0, cyc 1, …` at the front and
+    `cyc (n-1), cyc (n-2), …` at the back, and answers `None` as soon as the two ends met. -/
+theorem C14_code_double_ended {step back cyc n} (h : IsCycle step back cyc n) (ops : List Bool) :
+    CI.run step back (CI.new (cyc 0)) ops = ciSpec cyc n 0 0 ops :=
+  CI_run_spec h ops 0 0 _ (CI_new_inv h)
+
+/-- forwards only: the cycle in order; backwards only (`.rev()`): the cycle in reverse order -/
+theorem C14_code_forward {step back cyc n} (h : IsCycle step back cyc n) (k : Nat) :
+    CI.run step back (CI.new (cyc 0)) (List.replicate k true) =
+      (List.range' 0 k).map (fun i => if i < n then some (cyc i) else none) := by
+  rw [C14_code_double_ended h, ciSpec_front]
+
+theorem C14_code_backward {step back cyc n} (h : IsCycle step back cyc n) (k : Nat) :
+    CI.run step back (CI.new (cyc 0)) (List.replicate k false) =
+      (List.range' 0 k).map (fun i => if i < n then some (cyc (n - i - 1)) else none) := by
+  rw [C14_code_double_ended h, ciSpec_back]
+
+/-- an empty iterator (`new_empty`, used when there is no hull / no out edge) answers `None` at once -/
+theorem C14_code_empty (step back : Nat → Nat) (e : Nat) :
+    (CI.newEmpty e).next step = (CI.newEmpty e, none) ∧ (CI.newEmpty e).nextBack back = (CI.newEmpty e, none) := by
+  simp [CI.newEmpty, CI.next, CI.nextBack]
+
+/-- `out_edges()` turns counter-clockwise forwards and clockwise backwards (regenerated from the source) -/
+theorem C14_code_out_edges_links : outStep = .ccw ∧ outStepBack = .cw := by decide
+
+/-- non-vacuity: the 3-cycle 5 → 7 → 9 → 5, front, back, front, then exhausted -/
+example : CI.run (fun x => if x = 9 then 5 else x + 2) (fun x => if x = 5 then 9 else x - 2) (CI.new 5)
+    [true, false, true, true, false] = [some 5, some 9, some 7, none, none] := by decide
+example : IsCycle (fun x => if x = 9 then 5 else x + 2) (fun x => if x = 5 then 9 else x - 2)
+    (fun i => 5 + 2 * (i % 3)) 3 := by
+  refine ⟨by omega, ?_, ?_, rfl, ?_⟩
+  · intro i; have : i % 3 < 3 := Nat.mod_lt _ (by omega)
+    by_cases h : i % 3 = 2
+    · have : (i + 1) % 3 = 0 := by omega
+      simp only [h, this]; rfl
+    · have h2 : (i + 1) % 3 = i % 3 + 1 := by omega
+      have : ¬ (5 + 2 * (i % 3) = 9) := by omega
+      simp only [this, if_false, h2]; omega
+  · intro i; have : i % 3 < 3 := Nat.mod_lt _ (by omega)
+    by_cases h : i % 3 = 2
+    · have h2 : (i + 1) % 3 = 0 := by omega
+      simp only [h2, h]; rfl
+    · have h2 : (i + 1) % 3 = i % 3 + 1 := by omega
+      have : ¬ (5 + 2 * (i % 3 + 1) = 5) := by omega
+      simp only [h2, this, if_false]; omega
+  · intro i j hi hj; simp only [Nat.mod_eq_of_lt hi, Nat.mod_eq_of_lt hj]; omega
+end CodeCircular
 end Spade
